@@ -1,1 +1,275 @@
-// harnesses for may_queue/src/mpsc.rs (child module, cfg(kani) only)
+// C03 (mpsc half): harnesses over the real may_queue/src/mpsc.rs (child module, cfg(kani) only).
+//
+// Real code: Queue::{new, push, push_index, pop, bulk_pop, fast_bulk_pop, peek, len, is_empty},
+// BlockNode::{new_box, new, set, try_get, get, peek, wait_next_block, copy_to_bulk},
+// BlockPtr::{pack, unpack}, bulk_end.  Stubbed: the std atomics of the queue (schedule point +
+// effect), Backoff::spin / hint::spin_loop (= "somebody else must make progress": pruned when the
+// awaited party is the pre-empted one).
+use super::*;
+use crate::verif_shim::{np, sa};
+use std::sync::atomic::Ordering;
+
+/// place an EMPTY queue at slot offset `id` of its first block (the state every history of
+/// `id` push/pop pairs reaches: head.index == id, tail == pack(first block, id); blocks as new()
+/// built them).  Walking there by operations costs > 15 min of symbolic execution.
+fn queue_at_offset(id: usize) -> Queue<u8> {
+    let q: Queue<u8> = Queue::new();
+    let blk = unsafe { q.head.block.unsync_load() };
+    unsafe {
+        *(*q.head.index).as_ptr() = id;
+        *(*q.tail.0).as_ptr() = BlockPtr::pack(blk, id);
+    }
+    q
+}
+/// `ANY` = every offset at once (symbolic index into the 64-slot array: tens of millions of
+/// clauses, thorough tier only); otherwise the concrete offset (quick tier: first slot and the
+/// last two slots of a block, one harness each - concrete indices fold to small formulas)
+const ANY: usize = usize::MAX;
+fn any_offset(sel: usize) -> usize {
+    if sel != ANY {
+        return sel;
+    }
+    let id: usize = kani::any();
+    kani::assume(id < BLOCK_SIZE);
+    id
+}
+
+// ---------------------------------------------------------------------------------------------
+// H-seq: sequential histories against a reference FIFO, from every slot offset
+// ---------------------------------------------------------------------------------------------
+fn seq_fifo(sel: usize) {
+    let id = any_offset(sel);
+    let q = queue_at_offset(id);
+    let a: u8 = kani::any();
+    let b: u8 = kani::any();
+    let c: u8 = kani::any();
+    assert!(q.pop().is_none() && q.is_empty() && q.len() == 0);
+    q.push(a);
+    q.push(b);
+    assert!(q.len() == 2 && !q.is_empty());
+    assert!(unsafe { q.peek() } == Some(&a));
+    assert!(q.pop() == Some(a), "C03: pop does not return the oldest value");
+    q.push(c);
+    assert!(q.len() == 2);
+    assert!(q.pop() == Some(b));
+    assert!(q.pop() == Some(c));
+    assert!(q.pop().is_none(), "C03: pop invented a value");
+    assert!(q.is_empty());
+    kani::cover!(a != b && b != c, "distinct values went through in order");
+    kani::cover!(sel != ANY || id == BLOCK_MASK, "queue started at the last slot of a block");
+    std::mem::forget(q);
+}
+macro_rules! seq_harness {
+    ($f:ident, $u:expr, $($name:ident = $sel:expr),*) => {
+        $( #[kani::proof] #[kani::unwind($u)] fn $name() { $f($sel) } )*
+    };
+}
+seq_harness!(seq_fifo, 4, c03_mpsc_seq_fifo_o0 = 0, c03_mpsc_seq_fifo_o62 = BLOCK_MASK - 1, c03_mpsc_seq_fifo_o63 = BLOCK_MASK,
+    c03_mpsc_seq_fifo_any = ANY);
+
+/// bulk_pop: returns the queued values in order, never past a block end, nothing lost between
+/// two bulk_pops, and queue drop afterwards frees exactly the two live blocks
+fn seq_bulk(sel: usize) {
+    let id = any_offset(sel);
+    let q = queue_at_offset(id);
+    let a: u8 = kani::any();
+    let b: u8 = kani::any();
+    let c: u8 = kani::any();
+    q.push(a);
+    q.push(b);
+    q.push(c);
+    let v1 = q.bulk_pop();
+    assert!(!v1.is_empty(), "C03: bulk_pop returned nothing although values are queued");
+    assert!(v1[0] == a);
+    let n1 = v1.len();
+    assert!(n1 <= 3);
+    if n1 >= 2 {
+        assert!(v1[1] == b);
+    }
+    if n1 == 3 {
+        assert!(v1[2] == c);
+    }
+    // a batch never crosses the block end
+    assert!(n1 <= BLOCK_SIZE - id);
+    let v2 = q.bulk_pop();
+    let n2 = v2.len();
+    if n1 < 3 {
+        assert!(n2 >= 1, "C03: values left behind by bulk_pop are lost");
+        assert!(v2[0] == if n1 == 1 { b } else { c });
+    }
+    let v3 = q.bulk_pop();
+    assert!(n1 + n2 + v3.len() == 3, "C03: bulk_pop lost or duplicated values");
+    assert!(q.bulk_pop().is_empty());
+    kani::cover!(n1 == 1 || id != BLOCK_MASK, "batch cut at the block end");
+    kani::cover!(n1 == 3 || id >= BLOCK_MASK - 1, "whole content in one batch");
+    std::mem::forget(v1);
+    std::mem::forget(v2);
+    std::mem::forget(v3);
+    std::mem::forget(q);
+}
+seq_harness!(seq_bulk, 5, c03_mpsc_seq_bulk_o0 = 0, c03_mpsc_seq_bulk_o61 = BLOCK_MASK - 2, c03_mpsc_seq_bulk_o62 = BLOCK_MASK - 1,
+    c03_mpsc_seq_bulk_o63 = BLOCK_MASK, c03_mpsc_seq_bulk_any = ANY);
+
+// ---------------------------------------------------------------------------------------------
+// H-np: one consumer against producers, schedules chosen by the solver
+// ---------------------------------------------------------------------------------------------
+static mut Q: *const Queue<u8> = std::ptr::null();
+static mut MAXD: usize = 1;
+static mut PUSH_LEFT: usize = 0; // pushes of the (nested) producer not yet started: values 1, 2
+static mut PUSH_STARTED: usize = 0;
+static mut PUSH_DONE: usize = 0;
+static mut POP_ALLOWED: usize = 0; // whole consumer pops that may be nested into a producer
+static mut POPPED: usize = 0; // values obtained by the consumer so far
+static mut NEXT_EXPECTED: u8 = 1;
+static mut IN_CONSUMER: bool = false;
+static mut ORDERED: bool = true; // single producer: values must come out as 1, 2
+static mut GOT: [bool; 4] = [false; 4];
+static mut IN_PRODUCER: usize = 0;
+
+fn producer_push() {
+    unsafe {
+        PUSH_LEFT -= 1;
+        PUSH_STARTED += 1;
+        let v = PUSH_STARTED as u8;
+        IN_PRODUCER += 1;
+        (*Q).push(v);
+        IN_PRODUCER -= 1;
+        PUSH_DONE += 1;
+    }
+}
+/// one whole pop of the consumer with the single-consumer linearizability oracle
+fn consumer_pop() {
+    unsafe {
+        let done_at_start = PUSH_DONE;
+        let popped_before = POPPED;
+        IN_CONSUMER = true;
+        let r = (*Q).pop();
+        IN_CONSUMER = false;
+        match r {
+            None => assert!(
+                done_at_start <= popped_before,
+                "C03: pop returned None although a completed push had not been consumed (value lost / not visible)"
+            ),
+            Some(v) => {
+                assert!(v >= 1 && (v as usize) <= PUSH_STARTED, "C03: pop returned a value that was never pushed");
+                if ORDERED {
+                    assert!(v == NEXT_EXPECTED, "C03: pop returned a value out of order or twice");
+                }
+                assert!(!GOT[v as usize], "C03: a value was popped twice");
+                GOT[v as usize] = true;
+                NEXT_EXPECTED += 1;
+                POPPED += 1;
+            }
+        }
+    }
+}
+fn hook() {
+    unsafe {
+        if np::DEPTH < MAXD {
+            if PUSH_LEFT > 0 && IN_PRODUCER <= 1 && kani::any() {
+                np::nested(producer_push);
+            }
+            if np::DEPTH < MAXD && POP_ALLOWED > 0 && !IN_CONSUMER && kani::any() {
+                POP_ALLOWED -= 1;
+                np::nested(consumer_pop);
+            }
+        }
+    }
+}
+/// an unsuccessful poll: the awaited write can only come from a pre-empted operation
+fn spin_prune() {
+    kani::assume(false);
+}
+fn backoff_prune(_b: &Backoff) {
+    kani::assume(false);
+}
+
+macro_rules! np_harness {
+    ($(#[$m:meta])* fn $name:ident() $body:block) => {
+        #[kani::proof]
+        $(#[$m])*
+        #[kani::stub(core::sync::atomic::Atomic::<*mut T>::load, sa::ptr_load)]
+        #[kani::stub(core::sync::atomic::Atomic::<*mut T>::store, sa::ptr_store)]
+        #[kani::stub(core::sync::atomic::Atomic::<*mut T>::compare_exchange_weak, sa::ptr_cas)]
+        #[kani::stub(core::sync::atomic::Atomic::<usize>::load, sa::usize_load)]
+        #[kani::stub(core::sync::atomic::Atomic::<usize>::store, sa::usize_store)]
+        #[kani::stub(crossbeam_utils::Backoff::spin, backoff_prune)]
+        #[kani::stub(crossbeam_utils::Backoff::snooze, backoff_prune)]
+        #[kani::stub(std::hint::spin_loop, spin_prune)]
+        fn $name() $body
+    };
+}
+
+/// consumer is the root: pop, pop (then drain); up to two pushes land at any atomic step of the
+/// consumer (and, at depth 2, inside each other)
+fn consumer_root(depth: usize, sel: usize) {
+    let id = any_offset(sel);
+    let q = queue_at_offset(id);
+    unsafe {
+        Q = &q;
+        MAXD = depth;
+        PUSH_LEFT = 2;
+        np::HOOK = Some(hook);
+    }
+    consumer_pop();
+    hook();
+    consumer_pop();
+    // quiescence: remaining pushes, then drain
+    unsafe {
+        np::HOOK = None;
+        while PUSH_LEFT > 0 {
+            producer_push();
+        }
+        consumer_pop();
+        consumer_pop();
+        assert!(POPPED == 2, "C03: a pushed value was never delivered");
+        assert!((*Q).pop().is_none());
+        kani::cover!(np::PREEMPTS > 0, "a push landed inside a pop");
+        kani::cover!(np::PREEMPTS == 2, "both pushes were nested");
+    }
+    std::mem::forget(q);
+}
+np_harness! { #[kani::unwind(4)] fn c03_mpsc_np_consumer_root_o0_d1() { consumer_root(1, 0) } }
+np_harness! { #[kani::unwind(4)] fn c03_mpsc_np_consumer_root_o62_d1() { consumer_root(1, BLOCK_MASK - 1) } }
+np_harness! { #[kani::unwind(4)] fn c03_mpsc_np_consumer_root_o63_d1() { consumer_root(1, BLOCK_MASK) } }
+np_harness! { #[kani::unwind(4)] fn c03_mpsc_np_consumer_root_o62_d2() { consumer_root(2, BLOCK_MASK - 1) } }
+np_harness! { #[kani::unwind(4)] fn c03_mpsc_np_consumer_root_o63_d2() { consumer_root(2, BLOCK_MASK) } }
+
+/// a producer is the root: push(1) (incl. the last-slot path: set, new_box, wait_next_block,
+/// next.store, tail.store); a second producer's whole push and the consumer's whole pops land at
+/// any of its atomic steps.
+fn producer_root(depth: usize, sel: usize) {
+    let id = any_offset(sel);
+    let q = queue_at_offset(id);
+    unsafe {
+        Q = &q;
+        MAXD = depth;
+        PUSH_LEFT = 2;
+        POP_ALLOWED = 2;
+        np::HOOK = Some(hook);
+    }
+    // two producers, one value each (numbered in start order): either may linearize first, so
+    // the oracle is "each value exactly once, None only if nothing completed is unconsumed"
+    unsafe { ORDERED = false };
+    producer_push();
+    unsafe {
+        np::HOOK = None;
+        while PUSH_LEFT > 0 {
+            producer_push();
+        }
+        let mut i = 0;
+        while i < 3 {
+            consumer_pop();
+            i += 1;
+        }
+        assert!(POPPED == 2, "C03: a pushed value was never delivered");
+        let _ = id;
+        kani::cover!(np::PREEMPTS > 0, "a pop / second push landed inside a push");
+    }
+    std::mem::forget(q);
+}
+np_harness! { #[kani::unwind(5)] fn c03_mpsc_np_producer_root_o0_d1() { producer_root(1, 0) } }
+np_harness! { #[kani::unwind(5)] fn c03_mpsc_np_producer_root_o62_d1() { producer_root(1, BLOCK_MASK - 1) } }
+np_harness! { #[kani::unwind(5)] fn c03_mpsc_np_producer_root_o63_d1() { producer_root(1, BLOCK_MASK) } }
+np_harness! { #[kani::unwind(5)] fn c03_mpsc_np_producer_root_o62_d2() { producer_root(2, BLOCK_MASK - 1) } }
+np_harness! { #[kani::unwind(5)] fn c03_mpsc_np_producer_root_o63_d2() { producer_root(2, BLOCK_MASK) } }
